@@ -70,6 +70,21 @@ def check_tables():
                 off.append({'pre': 'dictionary.json: no word is longer than 25 code points (10 x edit distance must fit the u8 rank number)',
                             'entry': [t, w], 'history': None})
     facts['dictionary_words'] = nwords
+    # emoji tables (dependency data, read from the emojicon sources by gen_tables.py): fewer than 256 emoji per name -- the rank
+    # number of the k-th emoji is the u8 k (zip(1..)); data.vrs / fixed_list.vrs / rank_order.vrs assume remaining().len() <= 255
+    try:
+        import gen_tables
+        gen_tables.main()
+        et = json.load(open(os.path.join(ROOT, 'build', 'gen', 'emoji_tables.json'), encoding='utf-8'))
+        for tab in ('names_map', 'bengali_map'):
+            m = max((len(v) for v in et.get(tab, {}).values()), default=0)
+            facts['emoji_%s_entries' % tab] = len(et.get(tab, {}))
+            facts['emoji_%s_longest_entry' % tab] = m
+            for k, v in et.get(tab, {}).items():
+                if len(v) > 255:
+                    off.append({'pre': 'emojicon %s: at most 255 emoji per name (u8 rank number)' % tab, 'entry': [k, len(v)], 'history': None})
+    except Exception as ex:
+        facts['emoji_tables'] = 'not readable: %r' % (ex,)
     facts['dictionary_longest_word_code_points'] = longest
     return facts, off
 
